@@ -225,7 +225,7 @@ class C11(UdpCheck):
         for t, kind, cid, th, extra in w.hev:
             if kind == "disconnect":
                 vs.append({"kind": "honest_client_disconnected_by_server", "key": entry, "detail": {"t": t, "addr": extra}})
-        w.probes["temp_pool_max"] = max(w.probes.get("temp_pool_max", 0), mon.temp_pool_max)
+        w.maxima["temp_pool_size"] = mon.temp_pool_max
         w.probes["hostile_datagrams_at_server_socket"] += sum(w.injections.values())
         return vs
 
